@@ -163,6 +163,12 @@ func (ex *Executor) VerifyUnit(key string, spec *FuncSpec) {
 		st.assume(Distinct(fvTerms...))
 	}
 	st.frames = []*Frame{fr}
+	if fn.Synthetic == "package initializer" && fn.Pkg != nil {
+		// the runtime runs a package initializer once, with its guard still false
+		if g, ok := fn.Pkg.Members["init$guard"].(*ssa.Global); ok {
+			st.globals[g] = Val{T: tFalse, Ty: types.Typ[types.Bool]}
+		}
+	}
 	fr.oldHeap = copyHeap(st.heap)
 	fr.oldAlloc = st.alloc
 	// requires
